@@ -15,6 +15,8 @@ CONSTANTS
   RestoreOnMismatch = TRUE
   FixPosZero = TRUE
   ExcusePosZero = FALSE
+  MaxCrash = 0
+  RestoreRecovers = TRUE
   Emit = TRUE
 VIEW view
 INVARIANTS TypeOK ChainContig Progress RetentionSafe HwmAcked EmitInv
